@@ -69,7 +69,7 @@ struct Script {
 
 fn parse(case: &str) -> Option<Script> {
     let t: Vec<&str> = case.split(' ').collect();
-    if t.len() < 5 || t[0] != "sc" {
+    if t.len() < 5 || !t[0].starts_with("sc") {
         return None;
     }
     let graceful = match t[1] {
@@ -803,8 +803,9 @@ impl Gen {
     }
 }
 
-fn header(mode: &str, buf: usize, payload: usize, age: bool) -> String {
-    format!("sc {} b{} p{} a{}", mode, buf, payload, age as u8)
+/// `class` only labels the generator stream in the evidence; it is not interpreted
+fn header(class: &str, mode: &str, buf: usize, payload: usize, age: bool) -> String {
+    format!("sc:{} {} b{} p{} a{}", class, mode, buf, payload, age as u8)
 }
 
 fn pick_sizes(rng: &mut Rng, ncalls: usize) -> (usize, usize) {
@@ -891,36 +892,36 @@ fn corpus() -> Vec<String> {
     // one coin of `select!`, hence the repetition over sizes)
     for b in BUFS {
         for k in [0, 0, 0] {
-            out.push(format!("sc g b{} p10 a0 G~{} C", b, k));
-            out.push(format!("sc g b{} p10 a0 C U0:0 G~{} C U1:0 A0", b, k));
-            out.push(format!("sc g b{} p10 a0 G~0 C~0 C~0 C", b));
+            out.push(format!("sc:corpus g b{} p10 a0 G~{} C", b, k));
+            out.push(format!("sc:corpus g b{} p10 a0 C U0:0 G~{} C U1:0 A0", b, k));
+            out.push(format!("sc:corpus g b{} p10 a0 G~0 C~0 C~0 C", b));
         }
     }
     for s in [
-        "sc g b1024 p10 a0 C U0:0 G A0",
-        "sc g b1024 p10 a0 C U0:0 A0 G",
-        "sc g b1024 p10 a0 C G U0:0",
-        "sc g b1024 p10 a0 C S0:2:0 A0 G A0 A0 A0",
-        "sc g b1024 p10 a0 C S0:2:5 A0 A0 G A0 A0 C U1:0",
-        "sc g b1024 p10 a0 C S0:2:0 A0 G C U1:0 A0 A0 A0",
-        "sc g b1024 p10 a0 C C U0:0 U1:0 G A0 A1",
-        "sc g b1024 p10 a0 C U0:0 E A0",
-        "sc n b1024 p10 a0 C U0:0 E A0",
-        "sc g b1024 p10 a0 C U0:0",
-        "sc g b1024 p10 a0 C U0:0 D0 G",
-        "sc g b1024 p10 a1 C U0:0 T C U0:0 U1:0 A0",
-        "sc g b1024 p10 a0 Io C Ir U0:0 G",
-        "sc g b1024 p10 a0 C S0:2:0 A0 X0 G",
-        "sc g b32 p70000 a0 C S0:2:0 U0:0 A0 A0 G A1 A0 A0",
-        "sc g b1024 p10 a0 C U0:0~0 G A0",
-        "sc g b1024 p10 a0 C~0 U0:0~0 G A0",
-        "sc g b1024 p10 a0 C G~0 U0:0 A0",
-        "sc g b24 p10 a0 C U0:0~0 G A0",
-        "sc g b1024 p10 a0 G",
-        "sc g b1024 p10 a0 E",
-        "sc n b1024 p10 a0 E",
-        "sc g b1024 p10 a0 G E G E C",
-        "sc g b1024 p10 a0",
+        "sc:corpus g b1024 p10 a0 C U0:0 G A0",
+        "sc:corpus g b1024 p10 a0 C U0:0 A0 G",
+        "sc:corpus g b1024 p10 a0 C G U0:0",
+        "sc:corpus g b1024 p10 a0 C S0:2:0 A0 G A0 A0 A0",
+        "sc:corpus g b1024 p10 a0 C S0:2:5 A0 A0 G A0 A0 C U1:0",
+        "sc:corpus g b1024 p10 a0 C S0:2:0 A0 G C U1:0 A0 A0 A0",
+        "sc:corpus g b1024 p10 a0 C C U0:0 U1:0 G A0 A1",
+        "sc:corpus g b1024 p10 a0 C U0:0 E A0",
+        "sc:corpus n b1024 p10 a0 C U0:0 E A0",
+        "sc:corpus g b1024 p10 a0 C U0:0",
+        "sc:corpus g b1024 p10 a0 C U0:0 D0 G",
+        "sc:corpus g b1024 p10 a1 C U0:0 T C U0:0 U1:0 A0",
+        "sc:corpus g b1024 p10 a0 Io C Ir U0:0 G",
+        "sc:corpus g b1024 p10 a0 C S0:2:0 A0 X0 G",
+        "sc:corpus g b32 p70000 a0 C S0:2:0 U0:0 A0 A0 G A1 A0 A0",
+        "sc:corpus g b1024 p10 a0 C U0:0~0 G A0",
+        "sc:corpus g b1024 p10 a0 C~0 U0:0~0 G A0",
+        "sc:corpus g b1024 p10 a0 C G~0 U0:0 A0",
+        "sc:corpus g b24 p10 a0 C U0:0~0 G A0",
+        "sc:corpus g b1024 p10 a0 G",
+        "sc:corpus g b1024 p10 a0 E",
+        "sc:corpus n b1024 p10 a0 E",
+        "sc:corpus g b1024 p10 a0 G E G E C",
+        "sc:corpus g b1024 p10 a0",
     ] {
         out.push(s.to_string());
     }
@@ -931,6 +932,7 @@ fn corpus() -> Vec<String> {
 /// scenario whose handler phases are spelled out one per step
 fn placements(out: &mut Vec<String>, rng: &mut Rng, g: &Gen, mode: &str, trig: &str, probe: bool, races: u64) {
     let (buf, payload) = pick_sizes(rng, g.calls.len());
+    let age = trig == "T";
     for at in 0..=g.ops.len() {
         let mut ops = insert_at(&g.ops, at, &[trig.to_string()]);
         if probe {
@@ -944,7 +946,8 @@ fn placements(out: &mut Vec<String>, rng: &mut Rng, g: &Gen, mode: &str, trig: &
         if races > 0 {
             ops = add_races(&ops, rng, races);
         }
-        out.push(format!("{} {}", header(mode, buf, payload, false), ops.join(" ")));
+        let class = format!("place{}{}{}", trig, if mode == "n" { "-nosignal" } else { "" }, if races > 0 { "-race" } else { "" });
+        out.push(format!("{} {}", header(&class, mode, buf, payload, age), ops.join(" ")));
     }
 }
 
@@ -952,7 +955,14 @@ fn structured(out: &mut Vec<String>, rng: &mut Rng, n: usize, max_conn: usize, m
     for i in 0..n {
         let finish = rng.chance(3, 4);
         let g = base_scenario(rng, max_conn, max_calls, finish);
-        match i % 8 {
+        match i % 10 {
+            // max_connection_age elapsing at every phase boundary (then the signal at the end)
+            8 => placements(out, rng, &g, "g", "T", false, 0),
+            9 => {
+                let mut g2 = g.clone();
+                g2.ops.push("G".into());
+                placements(out, rng, &g2, "g", "T", false, 0)
+            }
             0 | 1 => placements(out, rng, &g, "g", "G", true, 0),
             2 => placements(out, rng, &g, "g", "G", false, 0),
             3 => {
@@ -1000,11 +1010,13 @@ fn disturbed(out: &mut Vec<String>, rng: &mut Rng, n: usize, max_conn: usize, ma
             let nc = ops.iter().filter(|t| t.as_str() == "C").count();
             ops.extend(late_probe(nc));
         }
-        if rng.chance(1, 4) {
+        let racy = rng.chance(1, 4);
+        if racy {
             ops = add_races(&ops, rng, 2);
         }
         let (buf, payload) = pick_sizes(rng, g.calls.len());
-        out.push(format!("{} {}", header(mode, buf, payload, age), ops.join(" ")));
+        let class = format!("disturbed{}{}", if mode == "n" { "-nosignal" } else { "" }, if racy { "-race" } else { "" });
+        out.push(format!("{} {}", header(&class, mode, buf, payload, age), ops.join(" ")));
     }
 }
 
@@ -1014,7 +1026,7 @@ fn exhaustive(out: &mut Vec<String>, max_len: usize) {
     let alphabet = ["C", "U", "S", "A0", "A1", "G", "E", "D0", "X0"];
     fn rec(out: &mut Vec<String>, alphabet: &[&str], cur: &mut Vec<String>, nconn: usize, ncall: usize, left: usize) {
         if !cur.is_empty() {
-            out.push(format!("sc g b1024 p10 a0 {}", cur.join(" ")));
+            out.push(format!("sc:exhaustive g b1024 p10 a0 {}", cur.join(" ")));
         }
         if left == 0 {
             return;
@@ -1050,9 +1062,9 @@ fn racy_variants(out: &mut Vec<String>, rng: &mut Rng, cases: &[String]) {
         }
         let all0: Vec<String> = ops.iter().map(|t| format!("{}~0", t)).collect();
         let buf = *rng.pick(&BUFS);
-        out.push(format!("sc g b{} p10 a0 {}", buf, all0.join(" ")));
+        out.push(format!("sc:exhaustive-race g b{} p10 a0 {}", buf, all0.join(" ")));
         let mixed = add_races(&ops, rng, 5);
-        out.push(format!("sc g b{} p10 a0 {}", buf, mixed.join(" ")));
+        out.push(format!("sc:exhaustive-race g b{} p10 a0 {}", buf, mixed.join(" ")));
     }
 }
 
